@@ -232,9 +232,27 @@ def k1_probe(rec):
     return True
 
 
+def fixed_twins():
+    """falsy / empty splitter values under no salt and an empty salt: the key is the empty string or prints like nothing"""
+    for salt in (None, "", "s"):
+        body = M.if_([(M.cmp_(M.ident("plan"), "==", M.lit_str("pro")), M.ret([(M.lit_str("p%d" % j), "1") for j in range(8)]))],
+                     M.ret([(M.lit_str("f%d" % j), "1") for j in range(8)]))
+        prog = M.program("exp", body, salt=salt, splitters=["uid"])
+        classes = {"uid": "any", "plan": "str"}
+        vals = ["", "", "", 0, None, False, " ", "0"]
+        inputs = [M.enc_inputs({"uid": v, "plan": p}) for v in vals for p in ("pro", "free")]
+        alts = [M.enc_inputs({"uid": v, "plan": p}) for v in vals for p in ("pro", "basic")]
+        yield {"prog": prog, "classes": classes, "inputs": inputs, "alts": alts, "extra": {"unused_1": M.enc("x")}, "perm": 0,
+               "newname": "renamed"}
+
+
 def run(ctx, rec):
     if ctx.shard == 0 and not k1_probe(rec):
         return
+    if ctx.shard == 0:
+        runner.direct_run(ctx, rec, "fixed-twins", fixed_twins(), judge)
+        if rec.violations:
+            return
     runner.hyp_run(ctx, rec, "twins", cases(), judge, ctx.n(400, 2500))
     if rec.violations:
         return
